@@ -32,6 +32,20 @@ def json_string(s):
     return "".join(out)
 
 
+def json_escaped(s):
+    """The same string with every character written as a \\uXXXX escape (surrogate pairs beyond the BMP): a reader cannot borrow it from the input."""
+    out = ['"']
+    for ch in s:
+        o = ord(ch)
+        if o >= 0x10000:
+            o -= 0x10000
+            out.append("\\u%04x\\u%04x" % (0xD800 + (o >> 10), 0xDC00 + (o & 0x3FF)))
+        else:
+            out.append("\\u%04x" % o)
+    out.append('"')
+    return "".join(out)
+
+
 def check_prog(ctx, r, prog, n_rand):
     rng = ctx.rng("c20", prog["name"])
     pn = prog["name"]
@@ -45,7 +59,8 @@ def check_prog(ctx, r, prog, n_rand):
         for a in addrs:
             text = "{\"addr\":" + json_string(a) + "}"
             flat = "{\"n\":7,\"addr\":" + json_string(a) + ",\"tail\":\"t\"}"
-            cmds.append({"prog": pn, "op": f"remote:{t}", "addr": a, "text": text, "flat_text": flat, "new_admin": "adm" + a[:5]})
+            cmds.append({"prog": pn, "op": f"remote:{t}", "addr": a, "text": text, "text_escaped": "{\"addr\":" + json_escaped(a) + "}", "flat_text": flat,
+                         "new_admin": "adm" + a[:5]})
         for a, o in zip(addrs, r.batch(cmds)):
             ctx.ev()
             exp = "{\"addr\":" + json_string(a) + "}"
@@ -71,6 +86,23 @@ def check_prog(ctx, r, prog, n_rand):
                 ctx.violate("flatten-decoding", f"{pn}: a struct flattening Remote<{t}> does not decode from {flat[:80]}: {str(fd)[:120]}", d)
             else:
                 ctx.count("flattened_round_trips")
+            # every other JSON writer says the same, every other reader (and the same text with all characters escaped) gives the same handle
+            for wname, wtext in (v.get("writers") or {}).items():
+                try:
+                    got = json.loads(wtext)
+                except ValueError:
+                    got = None
+                want = {"n": 7, "r": {"addr": a}, "tail": "t"} if wname.startswith("nested/") else {"addr": a}
+                wexp = ("{\"n\":7,\"r\":" + exp + ",\"tail\":\"t\"}") if wname.startswith("nested/") else exp
+                if got != want or ("pretty" not in wname and wtext != wexp):
+                    ctx.violate(f"writer:{wname}", f"{pn}: Remote<{t}> written with {wname} is {wtext[:100]!r} expected {wexp[:100]!r}", dict(d, writer=wname, text=wtext[:300]))
+                else:
+                    ctx.count("writer_agreements")
+            for rname, rres in (v.get("readers") or {}).items():
+                if rres != {"ok": a}:
+                    ctx.violate(f"reader:{rname}", f"{pn}: Remote<{t}> read with {rname} gives {str(rres)[:120]} for address {a[:40]!r}", dict(d, reader=rname, result=rres))
+                else:
+                    ctx.count("reader_agreements")
             if v["schema_name"] != "Remote":
                 ctx.violate("schema-name", f"{pn}: schema name of Remote<{t}> is {v['schema_name']}", d)
             if v["update_admin"] != {"update_admin": {"contract_addr": a, "admin": "adm" + a[:5]}} or v["clear_admin"] != {"clear_admin": {"contract_addr": a}}:
